@@ -32,10 +32,12 @@
      "R"   return of the innermost macro
      "DR"  defer of a function literal that recovers;  "DN"  defer of one that does not
    The real writer fails at attempt k (and at every later attempt too when sticky).  Builders and
-   buffers cannot fail.  Given (prog, k, sticky) the model is deterministic: every action below is
-   a guard En_X(s) and an effect Do_X(s) on one record s; Step/Final run it as a function (used by
-   MC_Writer to compute the model's outcome set of a catalogue template) and Next runs it as a
-   state machine (model-checked, one action per code branch). *)
+   buffers cannot fail.  Every action below is a guard En_X(s) and an effect Do_X(s) on one record s.
+   Next runs them as a state machine (model-checked, one action per code branch) in which k is not
+   chosen in advance (k = 0): while no attempt has failed, every attempt on the real writer may
+   succeed (WriteOk) or be THE failing one (WriteFail, which fixes k) - all k share the fault-free
+   prefix.  Given k >= 1 the model is deterministic; Step/Final run it as a function (used by
+   MC_Writer to compute the model's outcome set of a catalogue template for every k). *)
 EXTENDS Integers, Sequences, FiniteSets, TLC
 CONSTANTS Shapes,      \* set of programs
           ConvFatal    \* TRUE: OpReturn raises the converter's error as fatalError (the code as found);
@@ -88,7 +90,9 @@ ConvPiece(x) == x.phase = "conv" \/ (x.phase = "run" /\ Op(x) = "V")
 Due(x) == x.phase \in {"flush", "conv"} \/ (x.phase = "run" /\ Op(x) \in {"T", "S", "V"})
 Pieces(x) == IF x.phase = "flush" \/ (x.phase = "run" /\ Op(x) = "T") THEN 1 ELSE 2
 OnW(x) == Top(x).out = "W"
-WillFail(x) == x.att + 1 = x.k \/ (x.sticky /\ x.failed)
+WillFail(x) == (x.k # 0 /\ x.att + 1 = x.k) \/ (x.sticky /\ x.failed)     \* this attempt fails for sure
+MayFail(x) == x.k = 0 \/ WillFail(x)                                        \* k = 0: the failing attempt is not chosen yet
+FixK(x) == IF x.k = 0 THEN [x EXCEPT !.k = x.att + 1] ELSE x
 Advance(x) == IF x.sub + 1 < Pieces(x) THEN [x EXCEPT !.sub = @ + 1]
               ELSE [x EXCEPT !.sub = 0, !.pc = @ + 1, !.phase = "run"]
 Attempt(x, ok) == [x EXCEPT !.att = @ + 1, !.after = IF x.pend THEN @ + 1 ELSE @,
@@ -97,8 +101,8 @@ Attempt(x, ok) == [x EXCEPT !.att = @ + 1, !.after = IF x.pend THEN @ + 1 ELSE @
 \* --- writes of OpText / OpShow (and of the show that flushes a returned string)
 En_WriteOk(x) == Due(x) /\ ~ConvPiece(x) /\ OnW(x) /\ ~WillFail(x)
 Do_WriteOk(x) == Advance(Attempt(x, TRUE))
-En_WriteFail(x) == Due(x) /\ ~ConvPiece(x) /\ OnW(x) /\ WillFail(x)
-Do_WriteFail(x) == [Attempt(x, FALSE) EXCEPT !.phase = "raise", !.sub = 0]
+En_WriteFail(x) == Due(x) /\ ~ConvPiece(x) /\ OnW(x) /\ MayFail(x)
+Do_WriteFail(x) == [Attempt(FixK(x), FALSE) EXCEPT !.phase = "raise", !.sub = 0]
 En_BufWrite(x) == Due(x) /\ ~ConvPiece(x) /\ ~OnW(x)                 \* strings.Builder / bytes.Buffer: cannot fail
 Do_BufWrite(x) == Advance(x)
 \* --- the instruction panics with outError{err}
@@ -107,8 +111,8 @@ Do_RaiseOutError(x) == [x EXCEPT !.phase = "unwind", !.panic = "out"]
 \* --- writes of the Markdown converter (to the real writer or to an enclosing macro buffer)
 En_ConverterWriteOk(x) == Due(x) /\ ConvPiece(x) /\ OnW(x) /\ ~WillFail(x)
 Do_ConverterWriteOk(x) == Advance(Attempt(x, TRUE))
-En_ConverterWriteFail(x) == Due(x) /\ ConvPiece(x) /\ OnW(x) /\ WillFail(x)
-Do_ConverterWriteFail(x) == [Attempt(x, FALSE) EXCEPT !.phase = IF x.phase = "conv" THEN "converr" ELSE "raise", !.sub = 0]
+En_ConverterWriteFail(x) == Due(x) /\ ConvPiece(x) /\ OnW(x) /\ MayFail(x)
+Do_ConverterWriteFail(x) == [Attempt(FixK(x), FALSE) EXCEPT !.phase = IF x.phase = "conv" THEN "converr" ELSE "raise", !.sub = 0]
 En_ConverterWriteBuf(x) == Due(x) /\ ConvPiece(x) /\ ~OnW(x)
 Do_ConverterWriteBuf(x) == Advance(x)
 \* --- OpReturn: err := vm.env.conv(...); if err != nil { panic(...) }
@@ -156,7 +160,8 @@ Step(x) == CASE En_WriteOk(x) -> Do_WriteOk(x) [] En_WriteFail(x) -> Do_WriteFai
              [] En_Return(x) -> Do_Return(x) [] En_HostPanic(x) -> Do_HostPanic(x)
 RECURSIVE Final(_)
 Final(x) == IF x.phase = "done" THEN x ELSE Final(Step(x))
-\* number of attempts on the real writer of a fault-free render of prog
+\* number of attempts on the real writer of a fault-free render of prog (with k = 0 both WriteOk and
+\* WriteFail are enabled and CASE takes the first: no attempt fails)
 NWrites(prog) == Final(S0(prog, 0, FALSE, FALSE)).att
 
 WriteOk == En_WriteOk(s) /\ s' = Do_WriteOk(s)
@@ -179,7 +184,7 @@ HostPanic == En_HostPanic(s) /\ s' = Do_HostPanic(s)
 \* (a sticky writer differs from one that fails once only if the render goes on after the failure, i.e. only
 \* if the program can recover)
 Stickiness(p) == IF \E i \in DOMAIN p : p[i] = "DR" THEN BOOLEAN ELSE {FALSE}
-Init == \E p \in Shapes : \E k \in 1..(NWrites(p) + 1) : \E st \in Stickiness(p) : s = S0(p, k, st, ConvFatal)
+Init == \E p \in Shapes : \E st \in Stickiness(p) : s = S0(p, 0, st, ConvFatal)
 Next == WriteOk \/ WriteFail \/ BufWrite \/ RaiseOutError \/ ConverterWrite \/ ConverterError \/ Call \/ Defer \/ Ret
         \/ Unwind \/ TemplateRecover \/ Return \/ HostPanic
 
@@ -188,12 +193,15 @@ InvNoWriteAfterFail == NoWriteAfterFail(s)
 InvReturnsE == ReturnsE(s)
 InvNoHostPanic == NoHostPanic(s)
 InvNilWithoutFailure == NilWithoutFailure(s)
-\* exactly one action is enabled until Run has returned (the model is a deterministic function)
-EnCount(x) == Cardinality({i \in 1..15 :
-   <<En_WriteOk(x), En_WriteFail(x), En_BufWrite(x), En_RaiseOutError(x), En_ConverterWriteOk(x), En_ConverterWriteFail(x),
-     En_ConverterWriteBuf(x), En_ConverterError(x), En_Call(x), En_Defer(x), En_Ret(x), En_Unwind(x), En_TemplateRecover(x),
-     En_Return(x), En_HostPanic(x)>>[i]})
-InvDeterministic == IF s.phase = "done" THEN EnCount(s) = 0 /\ s.ret # "none" ELSE EnCount(s) = 1
-\* the failing attempt is the k-th, and nothing but k decides it
-InvFailAtK == s.failed => s.att >= s.k
+\* until Run has returned exactly one action is enabled - or, while the failing attempt is not chosen
+\* yet, the two outcomes of an attempt on the real writer
+Ens(x) == <<En_WriteOk(x), En_WriteFail(x), En_BufWrite(x), En_RaiseOutError(x), En_ConverterWriteOk(x), En_ConverterWriteFail(x),
+            En_ConverterWriteBuf(x), En_ConverterError(x), En_Call(x), En_Defer(x), En_Ret(x), En_Unwind(x), En_TemplateRecover(x),
+            En_Return(x), En_HostPanic(x)>>
+EnSet(x) == {i \in 1..15 : Ens(x)[i]}
+InvDeterministic == IF s.phase = "done" THEN EnSet(s) = {} /\ s.ret # "none"
+                    ELSE \/ Cardinality(EnSet(s)) = 1
+                         \/ s.k = 0 /\ EnSet(s) \in {{1, 2}, {5, 6}}
+\* the failing attempt is the k-th, and nothing but k (and stickiness) decides it
+InvFailAtK == s.failed => (s.k >= 1 /\ s.att >= s.k)
 =============================================================================
